@@ -921,7 +921,8 @@ Proof.
       apply Z.ltb_lt in E. pose proof (Bits.pow2_pos _ Ht). apply andb_false_iff in Eal. destruct Eal as [Eal|Eal].
       + apply Z.ltb_ge in Eal. lia.
       + apply negb_false_iff in Eal. destruct (pow2_or_zero_spec _ Eal); [lia|auto].
-    - unfold gr. destruct (Z.testbit flags 0); [apply Bits.pow2_1|apply eff_granularity_pow2]. }
+    - unfold gr. destruct (Z.testbit flags 0); [apply Bits.pow2_1|apply eff_granularity_pow2].
+    - unfold al. destruct (type_min_alignment c ty <? minAlign) eqn:E; [apply Z.ltb_lt in E|]; unfold type_min_alignment in *; lia. }
   pose proof (VamInvU_add_pool c v [] [] l HI Hwf eq_refl) as I0. fold uid in I0.
   set (v0 := mkVam (v_m v) (v_global v) (v_lists v) (v_ded v) (mkPool uid (v_next_pool_id v) l [] :: v_pools v)
                    (v_next_pool_id v + 1) (uid + 1) (v_tab v)) in *.
@@ -1169,6 +1170,7 @@ Proof.
     + unfold type_valid, ntypes, zlen. apply andb_true_iff. split; [apply Z.leb_le; lia|apply Z.ltb_lt; lia].
     + apply type_min_alignment_pow2.
     + apply eff_granularity_pow2.
+    + unfold type_min_alignment. lia.
   - constructor.
   - constructor.
   - split; constructor.
@@ -1189,5 +1191,6 @@ Proof.
   - lia.
   - constructor.
   - intros s a S. exfalso. eapply Hnoslot; eauto.
+  - intros s a l S. exfalso. eapply Hnoslot; eauto.
 Qed.
 End WithCfg.
